@@ -569,7 +569,8 @@ def d4_10(ctx):
 
     fn = lx.methods["_send_write_fragmented"]
     value = bytes(range(250)) * 4  # 1000 bytes
-    for label, conn, overhead, fail_at in (("several segments", 500, 60, None), ("segments of exactly half the value", 560, 60, None), ("second segment fails", 500, 60, 1), ("one segment", 1100, 60, None)):
+    for label, conn, overhead, fail_at in (("several segments", 500, 60, None), ("segments of exactly half the value", 560, 60, None), ("second segment fails", 500, 60, 1), ("one segment", 1100, 60, None),
+                                           ("last segment of one byte", 393, 60, None), ("value exactly one segment", 1060, 60, None)):
         w0 = Obj(kind="WTF", tag="big", elements=250, request_id=3, error=None, value=value, message=bytes(overhead) + value, built=False, type_="write", tag_info=DINT, seq="S0")
         seg = conn - overhead
         sent, replies, log = [], [], []
@@ -1319,3 +1320,95 @@ def _bytes_and_symbol_rule(ctx):
 
 rule("C09", "D9.10", "T-WITNESS", floor=8)(_bytes_and_symbol_rule)
 rule("C06", "D6.13", "T-WITNESS", floor=8)(_bytes_and_symbol_rule)
+
+
+# ---------------------------------------------------------------------------------------------------------------- FixedSizeString
+def _fixedstring_rule(ctx, allow_refusal=False):
+    """The generated fixed-capacity string class folded on witnesses (capacity 6, UDINT / UINT length prefix; the encoding comes
+    from the class family): encode = length prefix counting the characters kept, the characters cut to the capacity, zero
+    padding up to the capacity - exactly prefix + capacity bytes for every input; decode reads the prefix and the whole
+    capacity and returns the first `length` characters."""
+    from ..consteval import ClassRef
+    from ..miniinterp import Stream
+
+    CT = "pycomm3.custom_types"
+    fs = ctx.model.cls(f"{CT}:FixedSizeString.FixedSizeString")
+    enc, dec = fs.methods["_encode"], fs.methods["_decode"]
+    fac = fs.enclosing
+    params = [a.arg for a in fac.args.args]
+    udint = ClassRef(ctx.model.cls("pycomm3.cip.data_types:UDINT"))
+    uint = ClassRef(ctx.model.cls("pycomm3.cip.data_types:UINT"))
+    encoding = ctx.folder.class_attr(fs, "encoding")
+    if not isinstance(encoding, str):
+        ctx.undecided(ckey(fs.key, "witness"), fs.node, "the string family's encoding is not a constant")
+        return
+    from ..miniinterp import Interp, _Unknown
+
+    def cls_w(size, lt):
+        it = Interp(ctx, fs.module)
+        env = {params[0]: size, params[1]: lt}
+        try:
+            attrs = {name: it.ev(expr, env) for name, expr in fs.attrs.items()}
+        except _Unknown as u:
+            return f"class attributes not foldable: {u.why}"
+        return Obj(kind="fixed-string", _ci=fs, _is_class=True, encoding=encoding, **attrs)
+
+    def hook(call, env, it):
+        f = call.func
+        if isinstance(f, ast.Attribute) and f.attr == "_stream_read" and isinstance(f.value, ast.Name) and f.value.id == "cls":
+            s_, n_ = it.ev(call.args[0], env), it.ev(call.args[1], env)
+            got = s_.read(n_)
+            if not got and n_:
+                raise _Raise("BufferEmptyError")
+            if len(got) != n_:
+                raise _Raise("DataError")
+            return got
+        return UNKNOWN
+
+    need = sorted({n.attr for m in (enc, dec) for n in ast.walk(m) if isinstance(n, ast.Attribute) and isinstance(n.value, ast.Name) and n.value.id == "cls" and isinstance(n.ctx, ast.Load)} - {"_stream_read", "encoding"})
+    for label, size, lt, lt_bytes in (("capacity 6, UDINT prefix", 6, udint, 4), ("capacity 6, UINT prefix", 6, uint, 2)):
+        c = cls_w(size, lt)
+        if isinstance(c, str):
+            ctx.undecided(ckey(fs.key, f"witness:{label}"), fs.node, c)
+            continue
+        missing = [a for a in need if a not in c.__dict__]
+        if missing:
+            ctx.violation(ckey(fs.key, f"class-attributes:{label}"), fs.node, f"FixedSizeString's codec reads cls.{missing} but the generated class does not define it")
+            continue
+        for value, kept in (("abc", "abc"), ("", ""), ("abcdef", "abcdef"), ("abcdefgh", "abcdef")):
+            env = {enc.args.args[0].arg: c, enc.args.args[1].arg: value}
+            if enc.args.vararg:
+                env[enc.args.vararg.arg] = ()
+            if enc.args.kwarg:
+                env[enc.args.kwarg.arg] = {}
+            kind, res = run_function(ctx, fs.module, enc, env, call_hook=hook, deep=False)
+            want = len(kept).to_bytes(lt_bytes, "little") + kept.encode(encoding) + bytes(size - len(kept))
+            res = bytes(res) if isinstance(res, bytearray) else res
+            if allow_refusal and kept != value and kind == "raise":
+                ctx.ok(ckey(fs.key + "._encode", f"witness:{label}:{value}"), enc, f"{label}: a value longer than the capacity is refused ({res}) - nothing beyond the capacity is written")
+            else:
+                _report(ctx, ckey(fs.key + "._encode", f"witness:{label}:{value}"), enc, f"{label}: encode({value!r})", (kind, res), ("return", want), "FixedSizeString._encode")
+            st = Stream(want + b"\xaa\xbb")
+            kind, res = run_function(ctx, fs.module, dec, {dec.args.args[0].arg: c, dec.args.args[1].arg: st}, call_hook=hook, deep=False)
+            key = ckey(fs.key + "._decode", f"witness:{label}:{value}")
+            if kind == "unknown":
+                ctx.undecided(key, dec, f"FixedSizeString._decode not foldable: {res}")
+            else:
+                ctx.check(kind == "return" and res == kept and st.pos == lt_bytes + size, key, dec, f"{label}: decode -> {kept!r}, {lt_bytes + size} bytes consumed", f"FixedSizeString._decode of the encoding of {kept!r} gives {kind} {res!r} after {st.pos} byte(s); expected {kept!r} after {lt_bytes + size}")
+        st = Stream((3).to_bytes(lt_bytes, "little") + b"ab")
+        kind, res = run_function(ctx, fs.module, dec, {dec.args.args[0].arg: c, dec.args.args[1].arg: st}, call_hook=hook, deep=False)
+        key = ckey(fs.key + "._decode", f"witness:{label}:truncated")
+        if kind != "unknown":
+            ctx.check(kind == "raise", key, dec, f"{label}: a truncated character block is refused", f"FixedSizeString._decode of a truncated block gives {kind} {res!r}")
+
+
+def _fixedstring_bounded(ctx):
+    """As D6.14, for the property that a write changes exactly the addressed data: the encoding never exceeds prefix +
+    capacity bytes - an over-long value is cut to the capacity or refused."""
+    _fixedstring_rule(ctx, allow_refusal=True)
+
+
+rule("C02", "D2.15", "T-WITNESS", floor=8)(_fixedstring_bounded)
+rule("C06", "D6.14", "T-WITNESS", floor=8)(_fixedstring_rule)
+rule("C07", "D7.11", "T-WITNESS", floor=8)(_fixedstring_rule)
+rule("C08", "D8.11", "T-WITNESS", floor=8)(_fixedstring_rule)
